@@ -63,6 +63,19 @@ Theorem tojson_valid_partial : forall s, Forall (fun c => 0 <= c) s ->
   json_tokens (tojson_str s) = Some [TLit s] /\ (forall x, In x (tojson_str s) -> is_html4 x = false).
 Proof. exact tojson_str_valid_proof. Qed.
 
+(* Re-entrancy of the handle mechanism.  [convert y st] is Value::from(Serde(y)) started in thread
+   state st (flag INTERNAL_SERIALIZATION, handle counter, registry - all arbitrary), where the
+   Serialize impls reached from y may embed template values, probe serializing_for_value(), convert
+   other data into template values (result embedded, dropped, under catch_unwind, on another
+   thread; nested to any depth), fail or panic, in struct fields, sequence items, map values and
+   enum payloads.  The result is the stateless ideal of Spec.v (every embedded value identical,
+   every probe true, nested conversions invisible), and the flag is left exactly as it was found:
+   set when the conversion was itself nested, clear when it was outermost - also when it failed or
+   unwound.  Hence any number of conversions in a row on one thread each behave ideally. *)
+Theorem reentrancy_transparent : forall y st,
+  fst (convert y st) = ideal_convert y /\ flag (snd (convert y st)) = flag st.
+Proof. exact reentrancy_transparent_proof. Qed.
+
 (* non-vacuity: a nested enum/struct/option/map value meets the hypotheses of [roundtrip]; a JSON
    text with the four characters inside a literal meets those of [postprocess_preserves_json] *)
 Definition ex_shape : sty :=
@@ -80,6 +93,20 @@ Example roundtrip_witness :
   de ex_type (ser ex_value) = Some ex_value.
 Proof. vm_compute. repeat split. Qed.
 
+Example reentrancy_witness :
+  let safe := VStr true [60; 98; 62] in
+  let y := NStruct (NCons (NNested (NSeq (NCons (NEmb safe) (NCons NPanic NNil))))
+                   (NCons (NEmb safe) NNil)) in
+  let z := NStruct (NCons (NNestedCatch (NSeq (NCons (NEmb safe) (NCons NPanic NNil))))
+                   (NCons (NNested (NMap (NCons (NNested NFail) (NCons NProbe NNil))))
+                   (NCons (NEmb safe) (NCons (NEmb VUndef) (NCons NProbe NNil))))) in
+  fst (convert y fresh_thread) = RPanic /\ flag (snd (convert y fresh_thread)) = false /\
+  reg (snd (convert y fresh_thread)) = reg fresh_thread /\
+  fst (convert z fresh_thread) =
+    ROk (VMap [(field_key 0, VNone); (field_key 1, VMap [(field_key 0, VInvalid); (field_key 1, VBool true)]);
+               (field_key 2, safe); (field_key 3, VUndef); (field_key 4, VBool true)]).
+Proof. vm_compute. repeat split; reflexivity. Qed.
+
 Example postprocess_witness :
   json_tokens [91; 34; 60; 47; 39; 92; 34; 34; 44; 49; 93]
     = Some [TCh 91; TLit [60; 47; 39; 34]; TCh 44; TCh 49; TCh 93] /\
@@ -91,6 +118,7 @@ Print Assumptions roundtrip.
 Print Assumptions roundtrip_domain_is_tight.
 Print Assumptions handles_identity.
 Print Assumptions handles_no_leak.
+Print Assumptions reentrancy_transparent.
 Print Assumptions tojson_html_safe.
 Print Assumptions postprocess_preserves_json.
 Print Assumptions html4_only_in_literals.
